@@ -938,79 +938,332 @@ Definition dns_prog (exact : bool) : prog :=
 (* ------------------------------------------------------------------ *)
 (* telnet: services/telnet/terminal.go line discipline + telnet.go dialogue *)
 (* ------------------------------------------------------------------ *)
-(* The terminal reads the connection itself (256-byte input buffer, unconsumed rest kept for
-   the next ReadLine) and handles one key at a time; for plain input (bytes below 128 other
-   than ESC and ^W) a key is one byte.  LF completes the line, CR is ignored, bytes >= 32 are
-   inserted at the cursor (up to 4096 per line), DEL/^H erase the previous character, ^U the
-   line left of the cursor, ^K the rest of the line, ^A/^E move the cursor, ^D on an empty
-   line ends the session (else deletes under the cursor), other control bytes are ignored. *)
+(* The terminal reads the connection itself: readLine decodes ONE KEY at a time from the bytes
+   it holds (bytesToKey: control bytes, UTF-8 characters through utf8.FullRune/DecodeRune,
+   escape sequences ESC [ ...), keeps what is not decodable YET in t.remainder (copied to the
+   start of the 256-byte inBuf) and reads more behind it (at most 256 - |remainder| bytes per
+   Read).  A character is represented by its UTF-8 bytes (DecodeRune accepts shortest forms
+   only, so string([]rune) gives the bytes back); the special keys live in the surrogate
+   area and print as U+FFFD when they end up in the line (bracketed paste).
+   bytesToKey answers utf8.RuneError both for "nothing decodable yet" (all bytes kept) and for
+   an undecodable byte it has CONSUMED (and for the character U+FFFD itself); since 1a2f0db
+   readLine tells the two apart by the bytes consumed: it waits for more input in the first
+   case and goes on with the bytes behind the undecodable one in the second ([stall] = false
+   below).  Before that commit it left the key loop in both cases ([stall] = true). *)
 Definition EV_TN_CONNECT : N := 15%N.  (* [] *)
 Definition EV_TN_AUTH : N := 16%N.     (* [username; password] *)
 Definition EV_TN_CMD : N := 17%N.      (* [command] *)
 
+Fixpoint beqs (a b : bytes) : bool :=
+  match a, b with
+  | [], [] => true
+  | x :: a', y :: b' => beq x y && beqs a' b'
+  | _, _ => false
+  end.
+
+(* ---- unicode/utf8: FullRune and DecodeRune on the head of the buffer ---- *)
+Inductive u8 :=
+  | U8More               (* a proper prefix of a possibly valid encoding: FullRune = false *)
+  | U8Bad                (* DecodeRune = (RuneError, 1) *)
+  | U8Rune (n : nat).    (* a valid encoding of n bytes *)
+
+Definition in_rng (lo hi b : N) : bool := ((lo <=? b) && (b <=? hi))%N.
+Definition is_cont (b : N) : bool := in_rng 128 191 b.
+
+(* the first[] table for a non-ASCII lead byte: size and accepted range of the second byte *)
+Definition u8_lead (b0 : N) : option (nat * N * N) :=
+  if in_rng 194 223 b0 then Some (2, 128%N, 191%N)
+  else if beq b0 224 then Some (3, 160%N, 191%N)
+  else if in_rng 225 236 b0 then Some (3, 128%N, 191%N)
+  else if beq b0 237 then Some (3, 128%N, 159%N)
+  else if in_rng 238 239 b0 then Some (3, 128%N, 191%N)
+  else if beq b0 240 then Some (4, 144%N, 191%N)
+  else if in_rng 241 243 b0 then Some (4, 128%N, 191%N)
+  else if beq b0 244 then Some (4, 128%N, 143%N)
+  else None.
+
+Definition u8_head (b : bytes) : u8 :=
+  match b with
+  | [] => U8More
+  | b0 :: t =>
+      if (b0 <? 128)%N then U8Rune 1 else
+      match u8_lead b0 with
+      | None => U8Bad
+      | Some (sz, lo, hi) =>
+          match t with
+          | [] => U8More
+          | b1 :: t1 =>
+              if negb (in_rng lo hi b1) then U8Bad
+              else if sz =? 2 then U8Rune 2
+              else match t1 with
+                   | [] => U8More
+                   | b2 :: t2 =>
+                       if negb (is_cont b2) then U8Bad
+                       else if sz =? 3 then U8Rune 3
+                       else match t2 with
+                            | [] => U8More
+                            | b3 :: _ => if is_cont b3 then U8Rune 4 else U8Bad
+                            end
+                   end
+          end
+      end
+  end.
+
+(* ---- bytesToKey ---- *)
+Inductive tkey :=
+  | KRune (c : bytes)    (* a decoded character (incl. control characters), by its UTF-8 bytes *)
+  | KHome | KEnd | KDelLine | KClear | KDelWord
+  | KUp | KDown | KLeft | KRight | KAltLeft | KAltRight
+  | KPasteStart | KPasteEnd | KUnknown.
+
+Inductive nkey :=
+  | NMore                          (* RuneError, all bytes kept: nothing decodable yet *)
+  | NBad (rest : bytes)            (* RuneError, but bytes were consumed: undecodable *)
+  | NSkip (rest : bytes)           (* a key sequence that fills the whole input buffer is dropped *)
+  | NKey (k : tkey) (rest : bytes).
+
+Definition ESC : N := 27%N.
+Definition TN_INBUF : nat := 256.
+Definition U_FFFD : bytes := [239; 191; 189]%N.
+Definition is_final (c : N) : bool := in_rng 97 122 c || in_rng 65 90 c || beq c 126%N.
+
+Fixpoint find_final (b : bytes) : option nat :=
+  match b with
+  | [] => None
+  | c :: r => if is_final c then Some 0 else option_map S (find_final r)
+  end.
+
+Definition PASTE_START : bytes := [27; 91; 50; 48; 48; 126]%N.
+Definition PASTE_END : bytes := [27; 91; 50; 48; 49; 126]%N.
+
+(* the sequences bytesToKey knows, outside and inside a bracketed paste *)
+Definition ESC_TABLE : list (bytes * tkey) :=
+  [([27; 91; 65]%N, KUp); ([27; 91; 66]%N, KDown); ([27; 91; 67]%N, KRight); ([27; 91; 68]%N, KLeft);
+   ([27; 91; 72]%N, KHome); ([27; 91; 70]%N, KEnd);
+   ([27; 91; 49; 59; 51; 67]%N, KAltRight); ([27; 91; 49; 59; 51; 68]%N, KAltLeft);
+   (PASTE_START, KPasteStart)].
+Definition ESC_TABLE_PASTE : list (bytes * tkey) := [(PASTE_END, KPasteEnd)].
+
+Fixpoint esc_lookup (tbl : list (bytes * tkey)) (b : bytes) : option (tkey * nat) :=
+  match tbl with
+  | [] => None
+  | (q, k) :: t => if has_prefix q b then Some (k, length q) else esc_lookup t b
+  end.
+
+(* An unknown or partial sequence: it ends with the first byte in [a-zA-Z~].  The remainder
+   always starts at inBuf[0], so a sequence without such a byte is waited for until the
+   buffer holds 256 bytes of it; then readLine drops the buffer (readBuf would be empty). *)
+Definition esc_key (paste : bool) (b : bytes) : nkey :=
+  match esc_lookup (if paste then ESC_TABLE_PASTE else ESC_TABLE) b with
+  | Some (k, n) => NKey k (skipn n b)
+  | None =>
+      match find_final (firstn TN_INBUF b) with
+      | Some i => NKey KUnknown (skipn (S i) b)
+      | None => if TN_INBUF <=? length b then NSkip (skipn TN_INBUF b) else NMore
+      end
+  end.
+
+Definition next_key (paste : bool) (b : bytes) : nkey :=
+  match b with
+  | [] => NMore
+  | b0 :: r =>
+      if negb paste && beq b0 1 then NKey KHome r
+      else if negb paste && beq b0 5 then NKey KEnd r
+      else if negb paste && beq b0 8 then NKey (KRune [127%N]) r
+      else if negb paste && beq b0 11 then NKey KDelLine r
+      else if negb paste && beq b0 12 then NKey KClear r
+      else if negb paste && beq b0 23 then NKey KDelWord r
+      else if beq b0 ESC then esc_key paste b
+      else match u8_head b with
+           | U8More => NMore
+           | U8Bad => NBad r
+           | U8Rune n =>
+               let c := firstn n b in
+               if beqs c U_FFFD then NBad (skipn n b) else NKey (KRune c) (skipn n b)
+           end
+  end.
+
+(* ---- the line editor ---- *)
 Inductive tn_stage := TUser | TPass (u : bytes) | TSess | TEnd.
-Record tn_st := mkTn { t_stage : tn_stage; t_line : bytes; t_pos : nat }.
+Record tn_st := mkTn {
+  t_stage : tn_stage;
+  t_line : list bytes;     (* t.line, one element per character *)
+  t_pos : nat;
+  t_paste : bool;          (* t.pasteActive *)
+  t_pasted : bool;         (* readLine's lineIsPasted *)
+  t_bad : bool             (* bookkeeping only: an undecodable byte was met on the way *)
+}.
 Definition TN_MAXLINE : nat := N.to_nat 4096.
+Definition is_end (st : tn_st) : bool := match t_stage st with TEnd => true | _ => false end.
 
 (* eraseNPreviousChars *)
-Definition tn_erase (n : nat) (line : bytes) (pos : nat) : bytes * nat :=
+Definition tn_erase {A} (n : nat) (line : list A) (pos : nat) : list A * nat :=
   let n := Nat.min n pos in (firstn (pos - n) line ++ skipn pos line, pos - n).
 
-(* the line is complete: Username, then Password (-> authentication event), then commands *)
-Definition tn_complete (st : tn_st) : tn_st * list event :=
-  let l := t_line st in
-  match t_stage st with
-  | TUser => (mkTn (TPass l) [] 0, [])
-  | TPass u => (mkTn TSess [] 0, [mkEv EV_TN_AUTH [u; l]])
-  | TSess => (mkTn TSess [] 0, [mkEv EV_TN_CMD [l]])
-  | TEnd => (st, [])
+Definition is_sp (c : bytes) : bool := beqs c [SP].
+
+(* countToLeftWord *)
+Fixpoint left_skip_sp (line : list bytes) (p : nat) : nat :=
+  match p with
+  | O => O
+  | S q => if is_sp (nth p line []) then left_skip_sp line q else p
+  end.
+Fixpoint left_word (line : list bytes) (p : nat) : nat :=
+  match p with
+  | O => O
+  | S q => if is_sp (nth p line []) then S p else left_word line q
+  end.
+Definition count_left (line : list bytes) (pos : nat) : nat :=
+  match pos with
+  | O => O
+  | S q => pos - left_word line (left_skip_sp line q)
   end.
 
-Definition tn_key (st : tn_st) (b : N) : tn_st * list event :=
-  match t_stage st with
-  | TEnd => (st, [])
-  | _ =>
-      let line := t_line st in
-      let pos := t_pos st in
-      let upd (l : bytes) (p : nat) : tn_st * list event := (mkTn (t_stage st) l p, []) in
-      if beq b LF then tn_complete st
-      else if beq b 4%N then
-        match line with
-        | [] => (mkTn TEnd [] 0, [])
-        | _ => if pos <? length line then upd (firstn pos line ++ skipn (S pos) line) pos else upd line pos
-        end
-      else if beq b 127%N || beq b 8%N then let '(l, p) := tn_erase 1 line pos in upd l p
-      else if beq b 21%N then let '(l, p) := tn_erase pos line pos in upd l p
-      else if beq b 1%N then upd line 0
-      else if beq b 5%N then upd line (length line)
-      else if beq b 11%N then upd (firstn pos line) pos
-      else if (32 <=? b)%N then
-        (if length line =? TN_MAXLINE then upd line pos
-         else upd (firstn pos line ++ b :: skipn pos line) (S pos))
-      else upd line pos
-  end.
-
-(* the bytes of one Read, key by key *)
-Fixpoint tn_feed (st : tn_st) (l : bytes) : tn_st * list event :=
+(* countToRightWord *)
+Fixpoint span (f : bytes -> bool) (l : list bytes) : nat :=
   match l with
-  | [] => (st, [])
-  | b :: r => let '(st1, e1) := tn_key st b in
-              let '(st2, e2) := tn_feed st1 r in (st2, e1 ++ e2)
+  | [] => 0
+  | c :: r => if f c then S (span f r) else 0
+  end.
+Definition count_right (line : list bytes) (pos : nat) : nat :=
+  let s := skipn pos line in
+  let a := span (fun c => negb (is_sp c)) s in
+  a + span is_sp (skipn a s).
+
+Definition rune_is (k : tkey) (b : N) : bool :=
+  match k with KRune [x] => beq x b | _ => false end.
+(* string(rune) of a key that is not a decoded character (surrogate area) *)
+Definition key_char (k : tkey) : bytes := match k with KRune c => c | _ => U_FFFD end.
+Definition printable (c : bytes) : bool := match c with [x] => (32 <=? x)%N | _ => true end.
+
+(* the line is complete: Username, then Password (-> authentication event), then commands;
+   a line that was pasted as a whole comes back with ErrPasteIndicator and Handle returns *)
+Definition tn_complete (st : tn_st) : tn_st * list event :=
+  let l := concat (t_line st) in
+  let next (stage : tn_stage) := mkTn stage [] 0 (t_paste st) (t_paste st) (t_bad st) in
+  if t_pasted st then (next TEnd, [])
+  else match t_stage st with
+       | TUser => (next (TPass l), [])
+       | TPass u => (next TSess, [mkEv EV_TN_AUTH [u; l]])
+       | TSess => (next TSess, [mkEv EV_TN_CMD [l]])
+       | TEnd => (st, [])
+       end.
+
+(* handleKey *)
+Definition tn_handle (st : tn_st) (k : tkey) : tn_st * list event :=
+  let line := t_line st in
+  let pos := t_pos st in
+  let upd (l : list bytes) (p : nat) : tn_st * list event :=
+    (mkTn (t_stage st) l p (t_paste st) (t_pasted st) (t_bad st), []) in
+  let insert (c : bytes) := upd (firstn pos line ++ c :: skipn pos line) (S pos) in
+  let erase (n : nat) := let '(l, p) := tn_erase n line pos in upd l p in
+  if t_paste st && negb (rune_is k 13) && negb (rune_is k 10) then insert (key_char k)
+  else match k with
+       | KRune c =>
+           if rune_is k 10 then tn_complete st
+           else if rune_is k 13 then upd line pos
+           else if rune_is k 127 then erase 1
+           else if rune_is k 4 then
+             (if pos <? length line then upd (firstn pos line ++ skipn (S pos) line) pos else upd line pos)
+           else if rune_is k 21 then erase pos
+           else if printable c then
+             (if length line =? TN_MAXLINE then upd line pos else insert c)
+           else upd line pos
+       | KHome => upd line 0
+       | KEnd => upd line (length line)
+       | KLeft => upd line (pos - 1)
+       | KRight => if pos =? length line then upd line pos else upd line (S pos)
+       | KAltLeft => upd line (pos - count_left line pos)
+       | KAltRight => upd line (pos + count_right line pos)
+       | KDelWord => erase (count_left line pos)
+       | KDelLine => upd (firstn pos line) pos
+       | KUp | KDown | KClear | KUnknown | KPasteStart | KPasteEnd => upd line pos
+       end.
+
+(* one turn of readLine's key loop for a decoded key *)
+Definition tn_key (st : tn_st) (k : tkey) : tn_st * list event :=
+  if is_end st then (st, [])
+  else if negb (t_paste st) then
+    if rune_is k 4 && (match t_line st with [] => true | _ => false end)
+    then (mkTn TEnd [] 0 false false (t_bad st), [])                       (* io.EOF *)
+    else match k with
+         | KPasteStart =>
+             (mkTn (t_stage st) (t_line st) (t_pos st) true
+                   (match t_line st with [] => true | _ => t_pasted st end) (t_bad st), [])
+         | _ => tn_handle (mkTn (t_stage st) (t_line st) (t_pos st) false false (t_bad st)) k
+         end
+  else match k with
+       | KPasteEnd => (mkTn (t_stage st) (t_line st) (t_pos st) false (t_pasted st) (t_bad st), [])
+       | _ => tn_handle st k
+       end.
+
+Definition tn_mark_bad (st : tn_st) : tn_st :=
+  mkTn (t_stage st) (t_line st) (t_pos st) (t_paste st) (t_pasted st) true.
+
+(* the key loop over the bytes held: (state, events, the bytes not consumed = t.remainder).
+   stall = false is the code (and the reference reading): behind a consumed undecodable byte
+   the loop goes on at once; stall = true is the code before 1a2f0db: the loop is left and the
+   bytes behind the undecodable one wait until the next Read has returned *)
+Fixpoint tn_keys (stall : bool) (fuel : nat) (st : tn_st) (b : bytes) : tn_st * list event * bytes :=
+  match fuel with
+  | O => (st, [], b)
+  | S f =>
+      if is_end st then (st, [], b)
+      else match next_key (t_paste st) b with
+           | NMore => (st, [], b)
+           | NBad r => if stall then (tn_mark_bad st, [], r) else tn_keys stall f (tn_mark_bad st) r
+           | NSkip r => tn_keys stall f st r
+           | NKey k r =>
+               let '(st1, e1) := tn_key st k in
+               let '(st2, e2, r2) := tn_keys stall f st1 r in (st2, e1 ++ e2, r2)
+           end
+  end.
+(* every turn consumes at least one byte *)
+Definition tn_dec (stall : bool) (st : tn_st) (b : bytes) : tn_st * list event * bytes :=
+  tn_keys stall (S (length b)) st b.
+
+(* one Write of the client (segment s, handed over by the pipe in pieces): while bytes of it
+   are pending, Read(inBuf[len(remainder):]) appends at most 256 - |remainder| of them and
+   the key loop runs over remainder ++ those *)
+Fixpoint tn_segment (stall : bool) (fuel : nat) (st : tn_st) (rem s : bytes) : tn_st * list event * bytes :=
+  match fuel with
+  | O => (st, [], rem ++ s)
+  | S f =>
+      match s with
+      | [] => (st, [], rem)
+      | _ =>
+          if is_end st then (st, [], rem ++ s)     (* Handle has returned, the connection is closed: nothing is read any more *)
+          else
+            let n := TN_INBUF - length rem in
+            let '(st1, e1, rem1) := tn_dec stall st (rem ++ firstn n s) in
+            let '(st2, e2, rem2) := tn_segment stall f st1 rem1 (skipn n s) in
+            (st2, e1 ++ e2, rem2)
+      end
   end.
 
-(* the connection: every Read returns (a piece of) one segment; the state carries over *)
-Fixpoint tn_feed_segs (st : tn_st) (c : segs) : tn_st * list event :=
+(* the connection: the client's writes one after the other; state and remainder carry over *)
+Fixpoint tn_conn (stall : bool) (st : tn_st) (rem : bytes) (c : segs) : tn_st * list event * bytes :=
   match c with
-  | [] => (st, [])
-  | s :: r => let '(st1, e1) := tn_feed st s in
-              let '(st2, e2) := tn_feed_segs st1 r in (st2, e1 ++ e2)
+  | [] => (st, [], rem)
+  | s :: r =>
+      let '(st1, e1, rem1) := tn_segment stall (S (length s)) st rem s in
+      let '(st2, e2, rem2) := tn_conn stall st1 rem1 r in (st2, e1 ++ e2, rem2)
   end.
 
-Definition TN_START : tn_st := mkTn TUser [] 0.
+Definition TN_START : tn_st := mkTn TUser [] 0 false false false.
+(* the code (since 1a2f0db the key loop goes on behind a consumed undecodable byte) *)
 Definition tn_run (c : segs) : list event * N :=
-  (mkEv EV_TN_CONNECT [] :: snd (tn_feed_segs TN_START c), 0%N).
+  (mkEv EV_TN_CONNECT [] :: snd (fst (tn_conn false TN_START [] c)), 0%N).
+(* the code BEFORE 1a2f0db: same reads, same remainder, but the loop is left after an undecodable
+   byte.  Kept only as the definition behind signature telnet-undecodable-byte-postpones-input,
+   so that a regression is reported under its own name *)
+Definition tn_run_before_1a2f0db (c : segs) : list event * N :=
+  (mkEv EV_TN_CONNECT [] :: snd (fst (tn_conn true TN_START [] c)), 0%N).
+(* the reference reading: the whole byte stream decoded key by key *)
 Definition tn_expected (s : bytes) : list event * N :=
-  (mkEv EV_TN_CONNECT [] :: snd (tn_feed TN_START s), 0%N).
+  (mkEv EV_TN_CONNECT [] :: snd (fst (tn_dec false TN_START s)), 0%N).
+(* no undecodable byte (and no U+FFFD) is met when the stream is read as a whole *)
+Definition tn_decodable (s : bytes) : bool := negb (t_bad (fst (fst (tn_dec false TN_START s)))).
 
 (* ------------------------------------------------------------------ *)
 (* ldap: services/ldap/conn.go readPacket + ldap.go serve + the handler chain *)
